@@ -96,6 +96,11 @@ def cases(draw):
             script.append([d.choice(['', '   ', 'xyz', 'skip 0', 'skip x', 'skip -3', 'stepp', 'r', 'read', 'go 5']), 'noop', 0])
         else:
             script.append([d.choice(['q', 'quit', 'exit', 'Q']), 'exit', 0])
+    # most sessions should run to completion instead of ending at the script's end (= quit): finish with continue(s)
+    if d.pct() < 70:
+        script += [[d.choice(['c', 'continue', 'cont']), 'continue', 0]] * d.int(1, 6)
+        if d.pct() < 60:
+            script.append([d.choice(['ca', 'c*', 'continue all']), 'continue_all', 0])
     img['breakpoints'] = sorted(bps)
     img['labels'] = labels
     img['script'] = script
